@@ -38,7 +38,15 @@ func elementOfReceiverSlice(fn *ssa.Function, v ssa.Value) (*types.Var, *ssa.Ind
 			if _, isC := x.Index.(*ssa.Const); isC {
 				return nil, nil
 			}
-			f, root, _ := bufVarOf(x.X)
+			base := x.X
+			for {
+				sl, ok := base.(*ssa.Slice)
+				if !ok {
+					break
+				}
+				base = sl.X // a range over S[k:]
+			}
+			f, root, _ := bufVarOf(base)
 			if f != nil && root == ssa.Value(recv) {
 				return f, x
 			}
@@ -125,7 +133,18 @@ func fanoutSites(p *Prog, methodName string) []fanoutSite {
 			if bo != nil && bo.Op == token.LSS && bo.X == ia.Index {
 				if lc, ok := bo.Y.(*ssa.Call); ok {
 					if bi, isB := lc.Call.Value.(*ssa.Builtin); isB && bi.Name() == "len" {
-						lf, lroot, _ := bufVarOf(lc.Call.Args[0])
+						larg := lc.Call.Args[0]
+						if larg == ia.X {
+							boundOK = true // the very slice that is indexed (S[k:])
+						}
+						for {
+							sl, ok := larg.(*ssa.Slice)
+							if !ok || sl.High != nil {
+								break
+							}
+							larg = sl.X
+						}
+						lf, lroot, _ := bufVarOf(larg)
 						if lf == f && lroot == ssa.Value(fn.Params[0]) {
 							boundOK = true
 						}
@@ -159,6 +178,33 @@ func fanoutSites(p *Prog, methodName string) []fanoutSite {
 					if s == h || reachableAvoidingSet(s, nil, nil)[h] {
 						site.OK = false
 						site.Why = "a condition inside the loop (" + p.Pos(idom.Instrs[len(idom.Instrs)-1].Pos()) + ") lets an iteration skip the child"
+					}
+				}
+			}
+			// the loop is left only at its bound or on a failure: any other exit
+			// edge (a second condition in the loop's test, a break) stops the
+			// fan-out before the last child
+			if site.OK {
+				for lb := range inLoop {
+					if !h.Dominates(lb) || !reachableAvoidingSet(lb, nil, nil)[h] {
+						continue
+					}
+					for _, s := range lb.Succs {
+						if s == h || (inLoop[s] && reachableAvoidingSet(s, nil, nil)[h]) {
+							continue
+						}
+						failing := false
+						if ret, ok := s.Instrs[len(s.Instrs)-1].(*ssa.Return); ok {
+							for _, rv := range ret.Results {
+								if isErrorType(rv.Type()) && !isNilConst(rv) {
+									failing = true
+								}
+							}
+						}
+						if !failing {
+							site.OK = false
+							site.Why = "the loop can be left at " + p.Pos(lb.Instrs[len(lb.Instrs)-1].Pos()) + " before the last element of " + p.FieldName(f) + " without a failure"
+						}
 					}
 				}
 			}
